@@ -124,7 +124,16 @@ func (cfg *Config) applyDenylist() {
 }
 
 func (cfg *Config) applyOverrides() error {
-	for name, value := range cfg.overrides {
+	// Apply the overrides in sorted order of their names, so that which of
+	// them are in effect when an invalid value ends the loop does not depend
+	// on the iteration order of the map.
+	names := make([]string, 0, len(cfg.overrides))
+	for name := range cfg.overrides {
+		names = append(names, name)
+	}
+	sort.Strings(names)
+	for _, name := range names {
+		value := cfg.overrides[name]
 		parts := strings.Split(name, ".")
 		if len(parts) == 1 {
 			cfg.globals[name] = value
